@@ -28,7 +28,7 @@ def write_replay(prop, rec):
     return p
 
 
-def run_kani_jobs(res, jobs, note=None, fallback=None):
+def run_kani_jobs(res, jobs, note=None, fallback=None, workers=None):
     """runs jobs, classifies outcomes into res (Result). Returns list of raw results."""
     prop = res.prop
     # residual harnesses required by known findings are added automatically
@@ -44,7 +44,7 @@ def run_kani_jobs(res, jobs, note=None, fallback=None):
         if k not in seen:
             seen.add(k)
             alljobs.append(j)
-    results, build_s = kanirun.run_many(alljobs)
+    results, build_s = kanirun.run_many(alljobs, workers=workers)
     # fast-path harnesses (leaf stubs) that fail are re-decided by their direct (unstubbed) harness
     if fallback:
         redo = []
@@ -56,7 +56,7 @@ def run_kani_jobs(res, jobs, note=None, fallback=None):
                 redo.append({"cfg": r["cfg"], "harness": fallback[r["harness"]], "timeout": 2700, "mem_gb": 14})
         if redo:
             results = [r for r in results if not (r["outcome"] != "PASS" and r["harness"] in fallback)]
-            r2, b2 = kanirun.run_many(redo)
+            r2, b2 = kanirun.run_many(redo, workers=workers)
             results += r2
     by = {(r["cfg"], r["harness"]): r for r in results}
     res.extra.setdefault("kani_build_s", {}).update(build_s)
